@@ -49,6 +49,37 @@ Theorem C05_edit_refines_buffer :
 Proof. exact edit_refines_buffer. Qed.
 Print Assumptions C05_edit_refines_buffer.
 
+(** Round 3 – the generalisation: ANY configuration with the speller settings of the synthetic
+    schemas and one of the two chains ([edit_cfg]: speller, selector, navigator, editor over
+    abc/fallback segmentors, or the same with the punctuator after the speller and
+    punct_segmentor after abc_segmentor, the latter under the hypothesis that no spelling
+    letter is a key of the punctuation tables [no_letter_punct]); editor flavour, tables,
+    translators, source facts arbitrary.  [C05_edit_refines_buffer] is the instance synth_cfg. *)
+Theorem C05_edit_refines_buffer_gen :
+  forall (cfg : config) (translate : bytes -> seginfo -> list cand), edit_cfg cfg ->
+  forall keys : list ekey,
+    Forall (fun k => ekey_ok cfg k = true) keys ->
+    let r := run cfg translate (map op_of_ekey keys) in
+    cx_input (st_ctx (fst r)) = b_text (buf_run keys) /\
+    cx_caret (st_ctx (fst r)) = b_caret (buf_run keys) /\
+    st_commit (fst r) = [] /\
+    map edit_summary (snd r) = map (fun x => Some (x, [])) (buf_trace buf_empty keys).
+Proof. exact edit_refines_buffer_gen. Qed.
+Print Assumptions C05_edit_refines_buffer_gen.
+
+(** the punctuator schemas of the correspondence (synth_punct_express / synth_punct_fluid)
+    meet the hypotheses: no letter a-z is a key of their punctuation tables *)
+Theorem C05_edit_refines_buffer_punct :
+  forall (fluid dlog : bool) (translate : bytes -> seginfo -> list cand) (keys : list ekey),
+    Forall (fun k => ekey_ok (synth_punct_cfg fluid dlog) k = true) keys ->
+    let r := run (synth_punct_cfg fluid dlog) translate (map op_of_ekey keys) in
+    cx_input (st_ctx (fst r)) = b_text (buf_run keys) /\
+    cx_caret (st_ctx (fst r)) = b_caret (buf_run keys) /\
+    st_commit (fst r) = [] /\
+    map edit_summary (snd r) = map (fun x => Some (x, [])) (buf_trace buf_empty keys).
+Proof. exact edit_refines_buffer_punct. Qed.
+Print Assumptions C05_edit_refines_buffer_punct.
+
 (** Non-vacuity: a concrete history over the whole alphabet, run on the model
     with the oracle translator, walks through a non-trivial buffer. *)
 Definition c05_example_keys : list ekey :=
@@ -64,3 +95,12 @@ Proof.
   split; [repeat constructor|]. split; vm_compute; reflexivity.
 Qed.
 Print Assumptions C05_example.
+
+Theorem C05_punct_example :
+  edit_cfg (synth_punct_cfg true true) /\
+  map (fun x => snd (fst x)) (buf_trace buf_empty c05_example_keys) =
+    map (fun o => match edit_summary o with Some (_, t, _, _) => t | None => [x00] end)
+        (snd (run (synth_punct_cfg true true) (synth_translate (synth_punct_cfg true true)) (map op_of_ekey c05_example_keys))).
+Proof. split; [apply synth_punct_edit_cfg | vm_compute; reflexivity]. Qed.
+Print Assumptions C05_punct_example.
+
